@@ -12,7 +12,7 @@
 From Coq Require Import List NArith Bool Permutation.
 Import ListNotations.
 From SAV.util Require Import Topo Cycles TopoProofs TopoCycle TopoExtra CyclesSound CyclesComplete CyclesExact.
-From SAV.sql Require Import DDLOrder DDLOrderBase DDLOrderSort DDLOrderExec DDLOrderCreate DDLOrderDrop DDLOrderSorted.
+From SAV.sql Require Import DDLOrder DDLOrderBase DDLOrderSort DDLOrderExec DDLOrderCreate DDLOrderDrop DDLOrderSorted DDLOrderHistory.
 
 (* ------------------------------------------------------------------ create_all *)
 (* ANY foreign-key graph (self references, parallel constraints, cycles of any shape, use_alter or
@@ -139,6 +139,48 @@ Theorem c14_sorted_tables_edge_reading_refuted :
     sorted_tables md = Ok (o, true) /\ ~ before o (fk_ref f) (t_name t).
 Proof. exact sorted_tables_edge_reading_refuted. Qed.
 Print Assumptions c14_sorted_tables_edge_reading_refuted.
+
+(* ------------------------------------------------------------------ metadata histories *)
+(* The MetaData may be the result of any history of Table(...) definitions, MetaData.remove and
+   Table(..., extend_existing=True) ([run_history]/[current]: dict semantics, a re-definition goes to
+   the end, extend_existing replaces the re-specified constraints).  The plans are functions of the
+   metadata the history leaves behind - the tables in it NOW, every foreign key referring to the table
+   that has the referred name NOW - and of nothing else *)
+Theorem c14_plans_depend_on_current_metadata_only : forall h h', current h = current h' ->
+  (forall ex cf, create_after ex cf h = create_after ex cf h') /\
+  (forall ex cf, drop_after ex cf h = drop_after ex cf h') /\
+  sorted_after h = sorted_after h'.
+Proof. exact plans_depend_on_current_only. Qed.
+Print Assumptions c14_plans_depend_on_current_metadata_only.
+
+(* a history keeps table names unique and the constraints of each table distinct: the metadata it
+   leaves is well-formed as soon as its foreign keys resolve against the tables it contains now *)
+Theorem c14_history_leaves_wellformed_metadata : forall h md,
+  Forall step_ok h -> current h = Some md ->
+  (forall t f, In t md -> In f (t_fks t) -> In (fk_ref f) (names md)) -> wf md.
+Proof. exact history_wf. Qed.
+Print Assumptions c14_history_leaves_wellformed_metadata.
+
+(* hence create_all after ANY history is accepted and produces exactly the current metadata *)
+Theorem c14_create_all_after_history : forall h md db0 checkfirst,
+  Forall step_ok h -> current h = Some md ->
+  (forall t f, In t md -> In f (t_fks t) -> In (fk_ref f) (names md)) ->
+  consistent db0 md -> (checkfirst = false -> db0 = []) ->
+  ~ (exists w, cycle (fixed md) w /\ incl w (names md)) ->
+  exists o u, create_after (map fst db0) checkfirst h = Some (Plan o u) /\
+    forall u', Permutation u' u -> exists db', exec db0 (o ++ u') = Some db' /\ cat_equiv db' md.
+Proof. exact create_all_after_history. Qed.
+Print Assumptions c14_create_all_after_history.
+
+(* referred table defined first, referring table second, referred table removed and defined again *)
+Example c14_ex_history_redefine_parent :
+  let h := [Define (mktable 0 [] []); Define (mktable 1 [mkfk 0 0 false false] []);
+            Remove 0; Define (mktable 0 [] [])]%N in
+  current h = Some [mktable 1 [mkfk 0 0 false false] []; mktable 0 [] []]%N /\
+  create_after [] false h = Some (Plan [CreateT 0 []; CreateT 1 [mkfk 0 0 false false]]%N []) /\
+  drop_after [] false h = Some (Plan [DropT 1; DropT 0]%N []) /\
+  sorted_after h = Some (Ok ([0; 1]%N, false)).
+Proof. exact history_redefine_parent. Qed.
 
 (* ------------------------------------------------------------------ the model's err.cycles *)
 (* the model evaluates find_cycles with one canonical iteration order of the Python sets; every other
